@@ -25,7 +25,7 @@ SPELL_X = ['x', '/abs/x', './x', 'd/../x', 'x/', 'x//', './/x', 'sd/../x', 'sdv/
 SPELL_DOT = ['.', '..', './', '../', 'd/.', 'd/..', 'd/./', 'd/../', 'sd/..', '/mnt/v2', '/mnt/v2/', '', 'nonexistent',
              'd']
 OPTS = ['-', '-f', '-iy', '-in', '-ieof', '-v', '-vv', 'td-same', 'td-other', 'hf-flag', 'hf-both', '-f-v', '-iy-v-td-same', '-f-hf-both']
-LAYOUTS = ['home-cold', 'home-warm-samename', 'home-warm-orphans', 'home-warm-dangling', 'home-info-is-file', 'home-info-dangling', 'vol-sticky', 'vol-plain', 'vol-blocked']
+LAYOUTS = ['home-cold', 'home-warm-samename', 'home-warm-orphans', 'home-warm-dangling', 'home-info-is-file', 'home-info-dangling', 'home-info-missing', 'vol-sticky', 'vol-plain', 'vol-blocked']
 
 
 def dimensions(tier):
@@ -80,6 +80,9 @@ def make_world(kind, lay):
         W.dir(td, mode=0o700).dir(td + '/files', mode=0o700).dir(td + '/info', mode=0o700)
         W.file(td + '/files/x', 'older x\n')
         W.file(td + '/info/x.trashinfo', '[Trash Info]\nPath=/home/u/w/x\nDeletionDate=2020-01-01T00:00:00\n')
+    if lay == 'home-info-missing':
+        td = scen.HOME_TRASH
+        W.dir(td, mode=0o700).dir(td + '/files', mode=0o700)
     if lay in ('home-info-is-file', 'home-info-dangling'):
         # a damaged home trash: info is not a directory -> the candidate must fail cleanly and the next one be tried
         td = scen.HOME_TRASH
